@@ -3,7 +3,7 @@ from . import mir, sym
 
 TRY_BRANCH = ("<std::result::Result<T, E> as std::ops::Try>::branch", "<std::option::Option<T> as std::ops::Try>::branch")
 FROM_RESIDUAL = "::from_residual"
-PASS_THROUGH = ("std::result::Result::map_err", "std::result::Result::map", "std::option::Option::ok_or",
+PASS_THROUGH = ("anyhow::context::with_context", "anyhow::Context::with_context", "anyhow::context::context", "std::result::Result::map_err", "std::result::Result::map", "std::option::Option::ok_or",
                 "std::option::Option::ok_or_else", "std::option::Option::map")
 
 
